@@ -180,6 +180,13 @@ def handle : List String → String
       let d := Hc.CfgCrash.crashThenStart (hf == 1) ⟨some v, some h0⟩ h k
       s!"version={d.version.getD 0} hash={d.hash.getD 0}"
     | _, _, _, _, _ => "bad-op"
+  | ["sf", fails, n] =>
+    -- the advertisement of an accessory with n stored controller pairings when the listing of the entities fails / succeeds
+    match n.toNat? with
+    | some n =>
+      let es : List Entity := ⟨10000, 20000, some 20000⟩ :: (List.range n).map fun i => ⟨i + 1, 500 + i, none⟩
+      s!"sf={if advertised (fails == "1") es then 1 else 0}"
+    | none => "bad-op"
   | ["startf", flags, restructured] =>
     -- a storage left by a first start and one pairing; then a restart during which the reads named by the four flags
     -- (id, number, hash, own entity) fail; `restructured` = 1: the restart comes with another accessory structure
